@@ -311,6 +311,13 @@ func runC08HTTPCmd(t *testing.T, c simrt.Chooser, o Opts) *Out {
 	}
 	var diffs []string
 	for h, n := range wantRec {
+		if n > 1 && gotRec[h] >= 1 && gotRec[h] < n {
+			// a target listed n times is probed n times at once, and the probes share one connection
+			// slot per host: with a slow endpoint and a short timeout the later ones legitimately run
+			// out of time waiting for the slot - each of them is then a failed probe (one error record)
+			nfail += n - gotRec[h]
+			continue
+		}
 		if gotRec[h] != n {
 			diffs = append(diffs, fmt.Sprintf("%s printed %d times, want %d (%s)", h, gotRec[h], n, hbNames[hp.behaviour(strings.TrimPrefix(h, "tcp://"))]))
 		}
